@@ -366,7 +366,7 @@ def stubborn_servers_run(ctx, bins, peer, max_servers, stats):
     th = threading.Thread(target=sampler)
     th.start()
     try:
-        rc, to, text = e2e.run_runner(ctx, bins, args, "c05-stubborn-%d" % max_servers, timeout=600, env=env, race_label="c05-stubborn-%d" % max_servers)
+        rc, to, text = e2e.run_runner(ctx, bins, args, "c05-stubborn-%d" % max_servers, timeout=600, env=env, race_label="c05-stubborn-%d" % max_servers, reap=False)
     finally:
         stop.set()
         th.join()
@@ -416,7 +416,8 @@ def client_fault_run(ctx, bins, peer, rid, max_servers, after_answers, stats):
     args = ["-v", "--conf", confp, "--mode", "both", "--max-servers", str(max_servers), "--run", "Basic/**", "--", peer, "client", "----", peer, "server"]
     env = {"VERIF_EVENTLOG": evp, "VERIF_PEER_SCRIPT": json.dumps(script)}
     label = "c05-cfault-%d" % rid
-    rc, to, text = e2e.run_runner(ctx, bins, args, label, timeout=600, env=env, race_label=label)
+    # (reap=False: processes the runner leaves behind are what this scenario looks for; they are ended below)
+    rc, to, text = e2e.run_runner(ctx, bins, args, label, timeout=600, env=env, race_label=label, reap=False)
     t_exit = time.monotonic_ns()
 
     def alive(pid):
